@@ -68,6 +68,7 @@ def oracle(case):
     v = np.array(case['v'], dtype=float)
     n = len(y)
     cop = S.make_copula(fam, th)
+    S.interleave_sibling(cop, fam, th, np.column_stack((y, v)))      # two live copulas of one family
     u = ppf(cop, y, v)
     require(np.all(np.isfinite(u)) and np.all((u >= 0) & (u <= 1)), '%s(theta=%r): percent_point outside [0,1] or not finite: %r'
             % (fam, th, u[~((u >= 0) & (u <= 1))][:3]), tag='range')
